@@ -505,6 +505,13 @@ Theorem GenTie_inv_ring : forall bits a,
 Proof. intros bits a H0 HB La Wa. exact (g_inv_ring_eq bits H0 HB a La Wa). Qed.
 Print Assumptions GenTie_inv_ring.
 
+(* src/bits.rs: reverse_bits (`self.limbs.reverse()`, `for limb in &mut self.limbs`, `self >>= ..`) *)
+Theorem GenTie_reverse_bits : forall bits a,
+  0 <= bits -> nlimbs bits < B -> length a = nlimbsN bits ->
+  g_reverse_bits bits (nlimbs bits) a = Val (Bits.reverse_bits bits a).
+Proof. exact g_reverse_bits_eq. Qed.
+Print Assumptions GenTie_reverse_bits.
+
 (* the premises are satisfiable and the generated code computes: reciprocal(2^63) = 2^64 - 1 *)
 Example GenTie_nonvacuous :
   g_reciprocal_mg10 (2 ^ 63) = Val (2 ^ 64 - 1) /\ g_mask 65 = Val 1 /\ g_nlimbs 65 = Val 2 /\
@@ -526,6 +533,7 @@ Example GenTie_nonvacuous :
   g_arithmetic_shr 65 2 [0; 1] 64 = Val [2 ^ 64 - 1; 1] /\
   g_bitxor 65 2 [5; 1] [3; 1] = Val [6; 0] /\
   g_leading_zeros 65 2 [5; 0] = Val 62 /\
+  g_reverse_bits 65 2 [1; 0] = Val [0; 1] /\
   g_inv_ring 130 3 [3; 0; 0] = Val (Some [12297829382473034411; 12297829382473034410; 2]) /\
   g_mat_from_u64 240 46 = Val (9, 47, 23, 120, false) /\
   g_alg_gcd 65 2 [0; 1] [2 ^ 63 + 2 ^ 62; 0] = Val [2 ^ 62; 0] /\
